@@ -67,7 +67,8 @@ var c05Msg = mkSpace("message", []fieldDim{
 })
 
 type c05Case struct {
-	P ssoP `json:"p"`
+	P      ssoP `json:"p"`
+	Primed bool `json:"primed,omitempty"`
 }
 
 func c05Valid(p ssoP) bool {
@@ -96,8 +97,19 @@ type c05Verdict struct {
 	Class    string
 }
 
-func c05Judge(p ssoP) c05Verdict {
+func c05Judge(p ssoP) c05Verdict { return c05JudgePrimed(p, false) }
+
+// c05JudgePrimed: with primed=true the honest counterpart of the (forged) message is sent to the same
+// provider first (event history of depth 2): whatever the IdP remembers about a genuine request must not
+// let a tampered copy through afterwards.
+func c05JudgePrimed(p ssoP, primed bool) c05Verdict {
 	w, req, t := ssoBuild(p)
+	if primed {
+		h := p
+		h.Forge, h.Signer = "", ""
+		_, hreq, _ := ssoBuild(h)
+		ssoRun(w, hreq)
+	}
 	o := ssoRun(w, req)
 	v := c05Verdict{Accepted: o.Accepted}
 	if o.Rep.Panic != "" {
@@ -173,7 +185,7 @@ func init() { Registry["C05"] = runC05 }
 func runC05(ctx Ctx) int {
 	world.PinClock()
 	run := ev.NewRun("C05")
-	run.Rule = "full product of 50 signing configurations x every valid (base message, forgery operator) pair x deviation-bounded variation of 10 further message dimensions; one execution = fresh provider + one real SSO request; accepted := CreateAuthRequest in the storage call log; oracle: accepted and (required or carries a signature value) implies the honest signature is intact and the fields handed to storage equal the signed projection"
+	run.Rule = "full product of 50 signing configurations x every valid (base message, forgery operator) pair x deviation-bounded variation of 10 further message dimensions; one execution = fresh provider + one real SSO request; every forged message is additionally sent after its genuine counterpart on the same provider (history of depth 2); accepted := CreateAuthRequest in the storage call log; oracle: accepted and (required or carries a signature value) implies the honest signature is intact and the fields handed to storage equal the signed projection"
 	run.Assume = []string{"RSA keys only; forgery operators are the listed ones (singly); signature wrapping variants beyond the two XSW shapes are outside", "pairs of forgery operators are not composed; breadth comes from crossing each operator with configuration and message-shape dimensions"}
 	if ctx.Replay != "" {
 		var c c05Case
@@ -181,7 +193,7 @@ func runC05(ctx Ctx) int {
 			fmt.Println("replay:", err)
 			return 2
 		}
-		v := c05Judge(c.P)
+		v := c05JudgePrimed(c.P, c.Primed)
 		fmt.Printf("replay C05: %+v -> class=%s clause=%q detail=%v\n", c.P, v.Class, v.Clause, v.Detail)
 		if v.Clause != "" {
 			fmt.Printf("VIOLATION property=C05 replay=%s\n", ctx.Replay)
@@ -220,6 +232,7 @@ func runC05(ctx Ctx) int {
 		it := items[i]
 		v := c05Judge(it.p)
 		run.Evaluations.Add(1)
+		run.Transitions.Add(1)
 		req := "notrequired"
 		if boolTrue(it.p.SPFlag) || boolTrue(it.p.IdPFlag) {
 			req = "required"
@@ -232,7 +245,16 @@ func runC05(ctx Ctx) int {
 		}
 		run.Outcome(req + "/" + kind + "/" + v.Class)
 		if v.Clause != "" {
-			run.Violate(v.Clause, "sso", c05Labels(it.p, it.base), v.Detail, c05Case{it.p})
+			run.Violate(v.Clause, "sso", c05Labels(it.p, it.base), v.Detail, c05Case{P: it.p})
+		}
+		if kind == "forged" {
+			vp := c05JudgePrimed(it.p, true)
+			run.Evaluations.Add(1)
+			run.Transitions.Add(2)
+			run.Outcome(req + "/forged-after-genuine/" + vp.Class)
+			if vp.Clause != "" {
+				run.Violate(vp.Clause, "sso", append(c05Labels(it.p, it.base), "history=after-genuine-request"), vp.Detail, c05Case{P: it.p, Primed: true})
+			}
 		}
 	})
 	run.Sample(items[0].p)
